@@ -147,7 +147,7 @@ namespace Godi.Conc
 syntax "act_cases " ident : tactic
 macro_rules
   | `(tactic| act_cases $h:ident) => `(tactic|
-      (simp only [act, afterOk, afterFail, afterMiss, unlNext, resume] at $h:ident
+      (simp only [act, afterOk, afterFail, afterMiss, unlNext, resume, eq_self, Bool.false_eq_true, if_true, if_false] at $h:ident
        repeat' (split at $h:ident)
        all_goals (try (simp only [Option.some.injEq, Prod.mk.injEq, reduceCtorEq] at $h:ident))
        all_goals (try (obtain ⟨h1, h2, h3⟩ := $h:ident; subst h1 h2 h3))))
